@@ -109,6 +109,18 @@ def structure(rep, F, tag):
             R.check(f.dominates(rs[w][0].bb, h) and f.dominates(h, sdc[0].bb), 'clip-order|%s%s' % (w, tag),
                     'the bound on %s is not applied between its computation (rsqrt) and its application (scale_data)' % w, f.loc())
         # cost scaling
+        # the bounds (min/cum, max/cum) must be recomputed in every iteration: the divisions by the cumulative factor
+        # have to sit inside the Ruiz loop (a hoisted bound is symbolically identical but stale)
+        ruiz_headers = [h for h, body in loops.items() if sdc and sdc[0].bb in body]
+        if ruiz_headers:
+            rh = max(ruiz_headers, key=lambda x: len(loops[x]))
+            for c in f.calls:
+                if c.callee.name == 'div':
+                    a = [canon(f.sym_operand(x)) for x in c.args]
+                    if a[0] in ('arg3.equilibrate_min_scaling', 'arg3.equilibrate_max_scaling'):
+                        R.check(c.bb in loops[rh], 'bound-recomputed|%s|%s%s' % (a[0].split('_')[1], a[1][-20:], tag),
+                                'the bound %s/%s is computed outside the Ruiz loop: it uses the cumulative factor of the first iteration, so '
+                                'the cumulative scaling is bounded per iteration only' % (a[0].split('.')[1], a[1]), f.loc(c.sp))
         # cost scaling: the factor that multiplies P and q is bounded by (min/c, max/c) with the current cumulative c
         # (that P, q and c receive the same factor is the units invariant C10.R1)
         cost = [l for l in leaves if any(e[0] == 'call' and e[1] == 'scale' and e[2].startswith('scale(self.P,') for e in l[2])]
